@@ -220,6 +220,35 @@ class Models:
                 st.pc.append(z3.Implies(OptVal.is_Some_(z3.Select(m.arr, k)), z3.Or(*[z3.And(i < n, z3.Select(arr, i) == k) for i in range(N_BOUND)])))
             what = re.search(r"::(\w+)$", c).group(1)
             return one(Opaque("hashmap-iter", (what, m, IterV(arr, n, 0))))
+        # --- path cuts and opaque rcgen / std calls used by the issuing entry points
+        if re.search(r"(CertificateParams::serialize_der_with_signer::<|CertificateRevocationListParams::serialize_der$)", c):
+            ok = z3.Bool(self.fresh_name("cut_ok"))
+            st.events.append(("cut", c.split("::<")[0], tuple(args)))
+            return one(Opaque("result", (ok, Opaque("der"), Opaque("error"))))
+        if re.match(r"^<Result<.*> as Try>::branch$", c):
+            r = args[0]
+            if not (isinstance(r, Opaque) and r.what == "result"):
+                raise Unsupported("Try::branch on " + type(r).__name__)
+            ok = r.data[0]
+            return one(EnumV("ControlFlow", z3.If(ok, z3.IntVal(0), z3.IntVal(1)), [("Continue", [r.data[1]]), ("Break", [Opaque("residual", r.data[2])])]))
+        if re.match(r"^<Result<.*> as FromResidual<.*>>::from_residual$", c):
+            return one(Agg("variant:1:Err", [Cell(args[0])]))
+        if re.match(r"^(key_pair::)?serialize_public_key_der::<", c):
+            st.events.append(("call", "serialize_public_key_der", (("ref", args[0]),)))
+            return one(UNIT)
+        if re.match(r"^(key_pair::)?KeyPair::public_key_der$", c):
+            st.events.append(("call", "KeyPair::public_key_der", (("ref", args[0]),)))
+            return one(Opaque("der-bytes", ("public_key_der", args[0])))
+        if re.match(r"^(time::)?OffsetDateTime::unix_timestamp$", c):
+            v = deref(args[0])
+            nm = v.data if isinstance(v, Opaque) and isinstance(v.data, str) else self.fresh_name("ts")
+            return one(Z(z3.Int("unix_ts_" + str(nm))))
+        if re.match(r"^<.* as Into<.*>>::into$", c) or re.match(r"^<.* as From<.*>>::from$", c):
+            return one(args[0])
+        if re.match(r"^core::slice::<impl \[KeyUsagePurpose\]>::(is_empty|contains)$", c):
+            what = "is_empty" if c.endswith("is_empty") else "contains_crl_sign"
+            st.events.append(("call", "key_usages." + what, (("ref", args[0]),)))
+            return one(Z(z3.Bool("issuer_ku_" + what)))
         # --- python-level lists (vectors of enum values)
         if args and isinstance(deref(args[0]), ListV):
             lv = deref(args[0])
